@@ -17,7 +17,7 @@ but not used any more. -/
 namespace Driver.PTNOps
 open Tak Codec PTN
 
-def hexDigit (n : Nat) : Char := if n < 10 then Char.ofNat (48 + n) else Char.ofNat (87 + n)
+private def hexDigit (n : Nat) : Char := if n < 10 then Char.ofNat (48 + n) else Char.ofNat (87 + n)
 
 def hexEnc (b : Bytes) : String :=
   if b.isEmpty then "-" else
@@ -87,7 +87,7 @@ def parseTpsRes (tok : String) : Option (Bytes → R Pos) :=
 
 /-- the environment of the linked theorems (`PTN.realEnv`): the byte-level models of `ParseMove`, `FormatMove`,
 `ParseTPS`.  The harness's own `ParseTPS` answer (`tps`) is no longer consulted. -/
-def mkEnv (st : St) (_tps : Bytes → R Pos) : Env := realEnv st.basis
+private def mkEnv (st : St) (_tps : Bytes → R Pos) : Env := realEnv st.basis
 
 def noTps : Bytes → R Pos := fun _ => .error (.hang "unresolved TPS")
 
@@ -95,7 +95,7 @@ def fmtErr' : Err → String
   | .hang "unresolved TPS" => "unresolved-tps"
   | e => fmtErr e
 
-def fmtR {α} (r : R α) (k : α → String) : String :=
+private def fmtR {α} (r : R α) (k : α → String) : String :=
   match r with
   | .ok a => "ok " ++ k a
   | .error e => fmtErr' e
@@ -120,7 +120,7 @@ def traceOf (env : Env) (f : File) : String :=
   | .error e => fmtErr' e
   | .ok it => traceLoop env (f.ops.length + 3) it []
 
-def fmtInts (a : Array Int) : String := ",".intercalate (a.toList.map toString)
+private def fmtInts (a : Array Int) : String := ",".intercalate (a.toList.map toString)
 
 def parseKV (tok : String) : Option (List (Bytes × Int)) :=
   if tok == "-" then some [] else
@@ -192,7 +192,7 @@ def handlePTN : Handler := fun st op args =>
                  else if kind == "shout" then TextGlue.parseShout TextGlue.regexpInst line
                  else TextGlue.parseShoutRoom TextGlue.regexpInst line
         fmtR r (fun gs => " ".intercalate (gs.map hexEnc)))
-  | "weights", [_, res] =>
+  | "weightsjson", [_, res] =>
     -- the harness sends json.Unmarshal's own answer (`err`, or the decoded map); the model is the glue
     some (st, match (if res == "err" then some (Except.error (Err.illegal "json")) else (parseKV res).map Except.ok) with
       | none => "bad-arg"
